@@ -201,8 +201,9 @@ def slice_parts(n):
     # bounds beyond the ends (numpy clamps them) paired with an ordinary bound on the other side
     far_start = st.tuples(st.just("slice"), st.sampled_from([-n - 1, -n - 3, -2 * n - 1]), st.one_of(st.none(), st.integers(1, n + 2)), st.none()).map(list)
     far_stop = st.tuples(st.just("slice"), st.one_of(st.none(), st.integers(-n, n - 1)), st.sampled_from([n + 1, n + 3, 2 * n + 1]), st.none()).map(list)
+    neg_start = st.tuples(st.just("slice"), st.integers(-n, -1), st.one_of(st.none(), st.integers(-n, n)), st.none()).map(list)
     return st.one_of(st.tuples(st.just("slice"), b, b, st.sampled_from([None, None, None, 1, 2, -1])).map(list),
-                     st.tuples(st.just("slice"), b, b, st.sampled_from([None, None, None, 1, 2, -1])).map(list), far_start, far_stop)
+                     st.tuples(st.just("slice"), b, b, st.sampled_from([None, None, None, 1, 2, -1])).map(list), far_start, far_stop, neg_start)
 
 
 @st.composite
@@ -383,6 +384,8 @@ def cases_nd(draw, tier="quick"):
         return {"spec": spec, "mode": "index", "index": parts, "as_tuple": True, "np_int": draw(st.booleans())}
     k = d + 1 if draw(st.integers(0, 5)) == 0 else draw(st.integers(1, d))  # d + 1 indices: one too many
     parts = [draw(part(min(a, d - 1))) for a in range(k)]
+    if k == d + 1 and draw(st.booleans()):
+        parts[-1] = ["slice", None, None, None]  # (the superfluous index is a harmless-looking full slice)
     return {"spec": spec, "mode": "index", "index": parts, "as_tuple": draw(st.booleans()), "np_int": draw(st.booleans())}
 
 
